@@ -549,6 +549,7 @@ func init() {
 					}
 					c.Distinct("all", c.ID)
 					w.ShapeInvariance(c, c.ID, []File{{"c.yaml", m.cfg.YAML()}})
+					w.NameInvariance(c, c.ID, m.cfg)
 				})
 			}
 			// defects of other classes next to the graph: every atom set of size <= 2 x {scope, missing parameter,
